@@ -130,10 +130,13 @@ func (d AccountDirective) GetRange() Range { return d.Range }
 type CommodityDirective struct {
 	Commodity Commodity
 	Format    string
-	Alias     []string
-	Note      string
-	Subdirs   map[string]string
-	Range     Range
+	// FormatSymbolRange is where the symbol is written inside a "format"
+	// subdirective, nil when there is none.
+	FormatSymbolRange *Range
+	Alias             []string
+	Note              string
+	Subdirs           map[string]string
+	Range             Range
 }
 
 func (CommodityDirective) directive()        {}
